@@ -50,6 +50,7 @@ const ctlUser, ctlPassword = "ctl", "pw-foxtrot"
 // accounters with missing or odd options, users with nothing, a user named like a path.
 func oddWorld(t *rapid.T) cfggen.World {
 	w := cfggen.GenWorld(t)
+	drawExtraKeys(t, &w.Cfg)
 	extra := []cfggen.User{
 		{Name: "nohash", Scopes: []string{cfggen.ScopeA, cfggen.ScopeB}, Authenticator: &cfggen.Authenticator{Type: cfggen.AuthnBcrypt, Options: map[string]string{"key": "zz"}}, Accounter: &cfggen.Accounter{Name: "file", Type: cfggen.AcctFile, Options: map[string]string{"": ""}}},
 		{Name: "noopts", Scopes: []string{cfggen.ScopeA}, Authenticator: &cfggen.Authenticator{Type: cfggen.AuthnBcrypt}},
@@ -161,7 +162,15 @@ func genC14Conn(t *rapid.T, w cfggen.World) c14Conn {
 			body = model.AuthorRequest{Method: 6, Priv: 1, AType: 1, Service: 1, User: model.B(rapid.SampledFrom(names).Draw(t, "user")), Port: b("p"), RemAddr: b("r"), Args: margs}.Encode()
 		case "acct":
 			typ = 3
-			body = model.AcctRequest{Flags: rapid.Byte().Draw(t, "flags"), Method: 6, Priv: 1, AType: 1, Service: 1, User: model.B(rapid.SampledFrom(names).Draw(t, "user")), Args: []model.B{b(""), b("x")}}.Encode()
+			args := []model.B{b(""), b("x")}
+			flags := rapid.Byte().Draw(t, "flags")
+			if rapid.Bool().Draw(t, "standard_attributes") {
+				// what a device reports: the standard attributes with values at the edges (and a flag octet
+				// that makes the record acceptable)
+				args = genAttrArgs(t, "attr", rapid.IntRange(1, 6).Draw(t, "nattrs"))
+				flags = rapid.SampledFrom([]byte{2, 4, 8, 0x0a}).Draw(t, "record_flags")
+			}
+			body = model.AcctRequest{Flags: flags, Method: 6, Priv: 1, AType: 1, Service: 1, User: model.B(rapid.SampledFrom(names).Draw(t, "user")), Port: b("tty0"), RemAddr: b("r"), Args: args}.Encode()
 		case "foreign":
 			typ = rapid.SampledFrom([]byte{1, 2, 3}).Draw(t, "hdr_type")
 			body = genRequestBody(t, rapid.SampledFrom([]byte{1, 2, 3}).Draw(t, "body_type"))
